@@ -17,23 +17,23 @@ open CC
 open CC.Spec.Seq (Cfg Op Out IterOp)
 
 /-- (a)+(b) per call: no fault, ledger balanced, invariant kept -/
-theorem step_nofault_ledger (cfg : Cfg) (a : Arr) (op : Op) (m : Mem) (hinv : a.Inv) (hlive : 0 < m.live)
+theorem step_nofault_ledger (cfg : Cfg) (a : Arr) (op : Op) (m : Mem) (hinv : a.Inv)
     (hsort : ∀ xs, (cfg.sortFn xs).length = xs.length) :
     (a.step cfg op m).2.2.fault = m.fault ∧ (a.step cfg op m).2.2.live = m.live ∧ (a.step cfg op m).2.1.Inv := by
-  obtain ⟨_, _, _, s4, s5, s6, _⟩ := C01.step_refines cfg a op m hinv hlive hsort
+  obtain ⟨_, _, _, s4, s5, s6, _⟩ := C01.step_refines cfg a op m hinv hsort
   exact ⟨s6, s5, s4⟩
 
 /-- (a) over histories, for every schedule of refusals -/
-theorem history_nofault (cfg : Cfg) (ops : List Op) (a : Arr) (m : Mem) (hinv : a.Inv) (hlive : 0 < m.live)
+theorem history_nofault (cfg : Cfg) (ops : List Op) (a : Arr) (m : Mem) (hinv : a.Inv)
     (hsort : ∀ xs, (cfg.sortFn xs).length = xs.length) (hf : m.fault = false) :
     (a.run cfg ops m).2.2.fault = false ∧ (a.run cfg ops m).2.1.Inv := by
-  obtain ⟨_, _, h3, _, _, h6⟩ := C01.history_refines cfg ops a m hinv hlive hsort
+  obtain ⟨_, _, h3, _, _, h6⟩ := C01.history_refines cfg ops a m hinv hsort
   exact ⟨by rw [h6]; exact hf, h3⟩
 
 /-- (b) over histories: the array still owns exactly its two blocks -/
-theorem history_ledger (cfg : Cfg) (ops : List Op) (a : Arr) (m : Mem) (hinv : a.Inv) (hlive : 0 < m.live)
+theorem history_ledger (cfg : Cfg) (ops : List Op) (a : Arr) (m : Mem) (hinv : a.Inv)
     (hsort : ∀ xs, (cfg.sortFn xs).length = xs.length) : (a.run cfg ops m).2.2.live = m.live :=
-  (C01.history_refines cfg ops a m hinv hlive hsort).2.2.2.2.1
+  (C01.history_refines cfg ops a m hinv hsort).2.2.2.2.1
 
 /-- **no leak**: construct, run any history under any refusal schedule, destroy — the ledger is back
 where it started and nothing faulted -/
@@ -85,13 +85,13 @@ theorem builders_ledger (a : Arr) (b e : Nat) (cp : Nat → Nat) (p : Nat → Bo
 
 /-- `cc_array_destroy` releases the two blocks and nothing else -/
 theorem destroy_ledger (a : Arr) (m : Mem) (hlive : 2 ≤ m.live) :
-    (a.destroy m).live = m.live - 2 ∧ (a.destroy m).fault = m.fault := Arr.destroy_spec a m hlive
+    (a.destroy m).live = m.live - 2 ∧ (a.destroy m).fault = m.fault := Arr.destroy_spec a m
 
 /-- (c) `cc_array_destroy_cb` hands exactly the held elements, in index order, to the callback, then
 releases the two blocks -/
 theorem destroy_cb_visits_each_once (a : Arr) (m : Mem) (hinv : a.Inv) (hlive : 2 ≤ m.live) :
     (a.destroyCb m).1 = a.abs ∧ (a.destroyCb m).2.live = m.live - 2 ∧ (a.destroyCb m).2.fault = m.fault :=
-  Arr.destroyCb_spec a m hinv hlive
+  Arr.destroyCb_spec a m hinv
 
 /-- (c) `cc_array_remove_all_free` hands every non-NULL element to `free` (count), empties the array
 and touches no block of the array itself -/
@@ -102,19 +102,19 @@ theorem remove_all_free_frees_each_once (a : Arr) (m : Mem) (hinv : a.Inv) :
 
 /-- (a)+(b) iterator programs, including insertions that re-allocate -/
 theorem iter_program_nofault_ledger (ops : List IterOp) (a : Arr) (it : ArrIter) (c : Spec.Seq.Cursor) (m : Mem)
-    (hinv : a.Inv) (hlive : 0 < m.live) (hs : Arr.Sim a it c) :
+    (hinv : a.Inv) (hs : Arr.Sim a it c) :
     (a.iterRun it ops m).2.2.2.fault = m.fault ∧ (a.iterRun it ops m).2.2.2.live = m.live ∧
     (a.iterRun it ops m).2.1.Inv := by
-  obtain ⟨_, _, h3, h4, h5⟩ := C07Array.program_refines ops a it c m hinv hlive hs
+  obtain ⟨_, _, h3, h4, h5⟩ := C07Array.program_refines ops a it c m hinv hs
   exact ⟨h5, h4, h3⟩
 
 /-- (a)+(b) zip iterator mutators on two arrays -/
 theorem zip_nofault_ledger (a1 a2 : Arr) (it : ArrIter) (z : Spec.Seq.ZipCursor) (x y : Nat) (m : Mem)
-    (h1 : a1.Inv) (h2 : a2.Inv) (hlive : 0 < m.live) (hs : Arr.ZSim a1 a2 it z) :
+    (h1 : a1.Inv) (h2 : a2.Inv) (hs : Arr.ZSim a1 a2 it z) :
     ((Arr.zipAdd a1 a2 it x y m).2.2.2.2.live = m.live ∧ (Arr.zipAdd a1 a2 it x y m).2.2.2.2.fault = m.fault) ∧
     (Arr.zipRemove a1 a2 it m).2.2.2.2.2 = m ∧ (Arr.zipReplace a1 a2 it x y m).2.2.2.2 = m ∧
     (Arr.zipNext a1 a2 it m).2.2.2 = m := by
-  obtain ⟨_, sl, sf⟩ := Arr.zipAdd_sim a1 a2 it z x y m h1 h2 hlive hs
+  obtain ⟨_, sl, sf⟩ := Arr.zipAdd_sim a1 a2 it z x y m h1 h2 hs
   exact ⟨⟨sl, sf⟩, (Arr.zipRemove_sim a1 a2 it z m h1 h2 hs).2.2.2.2.2.2.2.1,
     (Arr.zipReplace_sim a1 a2 it z x y m h1 h2 hs).2.2.2.2.2.2.2.1, (Arr.zipNext_sim a1 a2 it z m h1 h2 hs).2.2.2⟩
 
